@@ -400,6 +400,24 @@ pub fn run_writer(prog: &Value, dev: &Dev, t: &mut TraceOut) -> WriteOutcome {
             "finalize" => {
                 out.finalize_called = true;
                 let ins = step.get("xml_replace").cloned();
+                let splice = step.get("xml_splice").cloned();
+                if let Some(sp) = &splice {
+                    // insert text at byte offsets of the generated XML (offsets refer to the unmodified text)
+                    let mut v: Vec<(usize, String)> = sp.as_array().unwrap().iter().map(|p| (p[0].as_u64().unwrap() as usize, p[1].as_str().unwrap().to_string())).collect();
+                    v.sort_by(|a, b| b.0.cmp(&a.0));
+                    let r = catch(|| w.finalize_customized_xml(|xml| {
+                        let mut x = xml.into_bytes();
+                        for (off, text) in &v {
+                            let off = (*off).min(x.len());
+                            x.splice(off..off, text.bytes());
+                        }
+                        match String::from_utf8(x) { Ok(s) => Ok(s), Err(_) => Error::invalid("splice produced invalid UTF-8") }
+                    }));
+                    let res = res_unit(r);
+                    t.ev(json!({"ev":"w_finalize","custom": true,"res":res}));
+                    note(&res, &mut out);
+                    continue;
+                }
                 let r = catch(|| match &ins {
                     Some(rep) if rep.is_array() => w.finalize_customized_xml(|xml| {
                         let mut x = xml;
